@@ -470,12 +470,17 @@ func runC09(r *core.Run) {
 		s.switchP = 60
 	}
 	net.Yield = s.yield
+	// the relying party also trusts the root of another authority, one that issues through
+	// intermediate CAs (the genuine root's path length is zero)
+	root2Key := AttackerKey(a, 3)
+	root2 := OtherRoot(a.Root, root2Key)
 	mkPool := func() *x509.CertPool {
 		p := x509.NewCertPool()
 		p.AddCertWithConstraint(a.Root, func([]*x509.Certificate) error {
 			s.yield("certpool-constraint")
 			return nil
 		})
+		p.AddCert(root2)
 		return p
 	}
 	ctx := output.NewContext(context.Background(), &output.Options{Quiet: true})
@@ -534,9 +539,39 @@ func runC09(r *core.Run) {
 			}
 		}
 		t.blob, t.blobClass = is.Bytes, "genuine"
+		// a task that follows one whose endorsement names an intermediate CA is, half of the time,
+		// the same signer's endorsement without that hint
+		pairBare := i > 0 && tasks[i-1].blobClass == "via-intermediate+bundle" && r.Bool("pair-with-bare-endorsement")
+		if pairBare {
+			t.source = 0
+		}
 		if t.source == 0 {
 			// the attestation's certificate table carries this task's own endorsement blob
-			switch r.Intn(4, "blob") {
+			kind := r.Intn(6, "blob")
+			if pairBare {
+				kind = 5
+			}
+			switch kind {
+			case 4, 5:
+				// the right measurements, signed by a key the second trusted root certified through
+				// an intermediate CA; the endorsement's CA bundle names the intermediate (4) or only
+				// the root (5). What one call is shown says nothing about another call's chain.
+				ik, sk := AttackerKey(a, 1), AttackerKey(a, 2)
+				inter := IntermediateCA(root2, root2Key, ik)
+				g2 := proto.Clone(is.Golden).(*epb.VMGoldenMeasurement)
+				g2.CaBundle = pemOf(root2)
+				t.blobClass = "via-intermediate-bare"
+				if t.measClass != "endorsed" {
+					c := named
+					if c == 0 {
+						c = 2
+					}
+					t.meas, t.measClass = is.Golden.SevSnp.Measurements[c], "endorsed"
+				}
+				if kind == 4 {
+					g2.CaBundle, t.blobClass = pemOf(inter, root2), "via-intermediate+bundle"
+				}
+				t.blob = Reassemble(g2, ForgeCert(sk, inter, ik, is.Cert.NotBefore, is.Cert.NotAfter, 78), sk, 0)
 			case 1:
 				// another firmware with its own genuine endorsement: accepted in isolation
 				t.blob, t.blobClass = otherIs.Bytes, "other-genuine"
